@@ -20,3 +20,23 @@ REVERT_D4 = [
         "",
     ),
 ]
+
+# --- verify_signable building blocks (canonical text)
+VS_AUTH_FILTER = "        if pubkey_hex not in authorized_pub_keys:\n            print('Ignoring signature from a key (\"' + str(pubkey_hex) + '\") that is not authorized to sign this metadata.')\n            continue\n"
+VS_RAW_TRY = "            try:\n                verify_signature(signature['signature'], public, signed_data)\n            except cryptography.exceptions.InvalidSignature:\n                continue\n            else:\n                good_sigs_from_trusted_keys[pubkey_hex] = signature\n"
+VS_GPG_TRY = "            try:\n                verify_gpg_signature(signature, pubkey_hex, signed_data)\n            except cryptography.exceptions.InvalidSignature:\n                continue\n            else:\n                good_sigs_from_trusted_keys[pubkey_hex] = signature\n"
+VS_GATE = "    if len(good_sigs_from_trusted_keys) < threshold:\n"
+VS_LOOP_HEAD = "    for pubkey_hex, signature in signable['signatures'].items():\n"
+VS_PAYLOAD = "    signed_data = canonserialize(signable['signed'])\n"
+VS_THRESH_GATE = "    if not isinstance(threshold, int) or threshold <= 0:\n        raise TypeError('threshold must be a positive integer.')\n"
+VS_HEXKEY_FILTER = "        if not is_hex_key(pubkey_hex):\n            print('Ignoring signature from \"key\" with public key value that does not look like a key value: ' + str(pubkey_hex))\n            continue\n"
+VS_GPGSHAPE_FILTER = "        if gpg and (not is_gpg_signature(signature)):\n            print('Ignoring \"signature\" that does not look like a gpg signature value: ' + str(signature))\n            continue\n"
+VS_RAWSHAPE_FILTER = "            if not is_signature(signature):\n                print('Ignoring \"signature\" that does not look like a hex signature value: ' + str(signature))\n                continue\n"
+
+REVERT_D7 = [
+    (A, "does not look like a key value: ' + ascii(pubkey_hex))", "does not look like a key value: ' + str(pubkey_hex))"),
+    (A, "does not look like a gpg signature value: ' + ascii(signature))", "does not look like a gpg signature value: ' + str(signature))"),
+]
+VS_HEXKEY_FILTER = "        if not is_hex_key(pubkey_hex):\n            print('Ignoring signature from \"key\" with public key value that does not look like a key value: ' + ascii(pubkey_hex))\n            continue\n"
+VS_GPGSHAPE_FILTER = "        if gpg and (not is_gpg_signature(signature)):\n            print('Ignoring \"signature\" that does not look like a gpg signature value: ' + ascii(signature))\n            continue\n"
+VS_RAWSHAPE_FILTER = "            if not is_signature(signature):\n                print('Ignoring \"signature\" that does not look like a hex signature value: ' + ascii(signature))\n                continue\n"
